@@ -128,6 +128,10 @@ def cases(tier: str, seed: int):
     # CLI plumbing slice: the same oracle through a real file and `reuse lint --json`
     for s in seqs(3 if tier == "quick" else 4):
         yield "@" + s
+    for k in (1, 2):
+        for d in (-40, -1, 0, 1, 40):
+            for closed in (0, 1):
+                yield f"@big:{k}:{d}:{closed}"
     yield from seqs(base)
     if tier == "quick":
         first = ALPHABET[seed % 7]
@@ -135,7 +139,47 @@ def cases(tier: str, seed: int):
             yield first + "".join(tup)
 
 
+def evaluate_big(spec: str) -> R:
+    """A file read in full (it has a snippet marker) with an ignore block that
+    is open across a multiple of 4096 bytes: tags inside must stay hidden,
+    tags after the block must count."""
+    import json
+
+    from ..cli import run_cli
+    from ..core import fresh_dir
+
+    r = R()
+    _b, k, d, closed = spec.split(":")
+    k, d, closed = int(k), int(d), int(closed)
+    head = "SPDX-SnippetBegin\n" + START + "\n"
+    unit = "filler line 0123456789\n"
+    body = ""
+    target = 4096 * k + d
+    while len(head + body + unit) <= target:
+        body += unit
+    body += "x" * max(0, target - len(head + body) - 1) + "\n"
+    hidden = "SPDX-License-Identifier: ISC\nSPDX-SnippetCopyrightText: 2001 Hidden\n"
+    tail = (END + "\n") if closed else ""
+    after = "SPDX-License-Identifier: MIT\nSPDX-SnippetCopyrightText: 2002 Shown\n" if closed else ""
+    text = head + body + hidden + unit * 20 + tail + after
+    root = fresh_dir("c12")
+    (root / "f.txt").write_text(text)
+    out = run_cli(["--root", str(root), "--no-multiprocessing", "lint", "--json"])
+    f = [x for x in json.loads(out.stdout)["files"] if x["path"] == "f.txt"][0]
+    got = (sorted(x["value"] for x in f["spdx_expressions"]), sorted(x["value"] for x in f["copyrights"]))
+    want = (["MIT"], ["SPDX-SnippetCopyrightText: 2002 Shown"]) if closed else ([], [])
+    r.validated = 1
+    if got != want:
+        r.violation("big-file-block-across-4096", f"snippet file of {len(text)} bytes, ignore block from byte {len('SPDX-SnippetBegin') + 1} "
+                                                  f"{'to byte ' + str(len(head + body + hidden + unit * 20)) if closed else 'to the end'}, tags hidden at byte {len(head + body)}: lint reads {got}, expected {want}")
+    r.outcome = "cli-big"
+    r.tags.append("cli")
+    return r
+
+
 def evaluate_cli(toks: str) -> R:
+    if toks.startswith("big:"):
+        return evaluate_big(toks)
     """A file holding the rendered sequence is linted; what lint attributes to
     it must equal the tags the reference machine sees outside blocks."""
     import json
